@@ -1010,8 +1010,21 @@ class Emitter:
     def e_refdef(self, nd, ctx):
         dest = getattr(nd, 'dest_md', nd.dest)
         dest = '<%s>' % dest if nd.angle else dest
-        s = '[%s]: %s' % (nd.label, dest)
-        out = [Line(self.ind(ctx) + s, kind='refdef')]
+        # 4.7: the label may span lines (white space in it collapses), the destination may stand on the line after the colon;
+        # all of it is paragraph continuation text, so inside a container the later lines may be lazy
+        label_lines = getattr(nd, 'label_md', nd.label).split('\n')
+        tail_lazy = bool(getattr(nd, 'lazy_tail', False)) and self.opt.lazy and not self.opt.canonical and ctx != 'doc'
+        out = [Line(self.ind(ctx) + '[' + label_lines[0], kind='refdef')]
+        for more in label_lines[1:]:
+            out.append(Line(more, lazy=tail_lazy, kind='refdef-label'))
+        if getattr(nd, 'dest_nl', False) and not self.opt.canonical:
+            out[-1].text += ']:'
+            out.append(Line('  ' + dest, lazy=tail_lazy, kind='refdef-dest'))
+            self.stat('definition-destination-on-its-own-line')
+        else:
+            out[-1].text += ']: ' + dest
+        if len(label_lines) > 1:
+            self.stat('definition-label-spans-lines')
         if nd.title:
             tq = nd.tq
             if getattr(nd, 'spelled', False):
@@ -1020,9 +1033,11 @@ class Emitter:
                 tq = next(q for q in '"\'(' if not ((q == '"' and '"' in nd.title) or (q == "'" and "'" in nd.title) or (q == '(' and '(' in nd.title)))
             t = tq + getattr(nd, 'title_md', nd.title) + (')' if tq == '(' else tq)
             if nd.title_nl:
-                out.append(Line('  ' + t, kind='refdef-title'))
+                out.append(Line('  ' + t, lazy=tail_lazy, kind='refdef-title'))
             else:
-                out[0].text += ' ' + t
+                out[-1].text += ' ' + t
+        if tail_lazy and len(out) > 1:
+            self.stat('definition-continued-lazily')
         self.gen.defs.append((nd.label, nd.dest, nd.title))
         return out
 
